@@ -1,5 +1,5 @@
 import PieModel.Props.C02
-
+import PieModel.Props.C02Once
 #print axioms PieModel.C02_consistent_memo
 #print axioms PieModel.C02_consistent_memo_sound
 #print axioms PieModel.C02_settled
@@ -8,3 +8,10 @@ import PieModel.Props.C02
 #print axioms PieModel.C02_idempotent_any
 #print axioms PieModel.noExec
 #print axioms PieModel.sessionRequire_fuel
+#print axioms PieModel.C02_onceInv_newSession
+#print axioms PieModel.C02_exec_once_step
+#print axioms PieModel.C02_exec_once
+#print axioms PieModel.C02_exec_once_sess
+#print axioms PieModel.C02_exec_once_cleanBuild
+#print axioms PieModel.C02_executed_consistent
+#print axioms PieModel.C02_exec_once_history
